@@ -11,7 +11,7 @@ import itertools, json, math, os, tempfile, time, warnings
 import numpy as np
 
 from vlib.core import PropertyCheck
-from props import qasm_tables, qasm_std
+from props import qasm_tables, qasm_std, qasm_tok
 
 QELIB = {"u3": (3, 1), "u2": (2, 1), "u1": (1, 1), "cx": (0, 2), "id": (0, 1), "x": (0, 1), "y": (0, 1), "z": (0, 1),
          "h": (0, 1), "s": (0, 1), "sdg": (0, 1), "t": (0, 1), "tdg": (0, 1), "rx": (1, 1), "ry": (1, 1), "rz": (1, 1),
@@ -906,8 +906,13 @@ def sim_unitary(qc, gates, cbits):
 def property_fails(prog, lenient_if=False):
     """C04 for one program -> (fails, detail).  `lenient_if`: evaluate `if(c==k)` on registers of more than one
     bit with the bit order the importer is known to use (recorded finding) so that other defects stay visible."""
+    return property_fails_text("\n".join(render(prog)) + "\n", lenient_if=lenient_if)
+
+
+def property_fails_text(text, lenient_if=False, refusal_ok=False):
+    """C04 for one text.  `refusal_ok`: the text is not laid out one statement per line — the importer may refuse a
+    well-formed program, but a circuit it returns must be faithful."""
     from qutip_qip.operations import Measurement
-    text = "\n".join(render(prog)) + "\n"
     try:
         std = qasm_std.Std(text)
         verdict = "ok"
@@ -922,6 +927,8 @@ def property_fails(prog, lenient_if=False):
             return True, "malformed / unsupported program (%s) imported as a circuit" % verdict
         return False, "standard: %s; importer: %s" % (verdict, st)
     if st != "ok":
+        if refusal_ok:
+            return False, "other layout: refused (%s)" % st
         return True, "well-formed program refused (%s)" % st
     if qc.N != std.nq or qc.num_cbits != std.nc:
         return True, "register sizes %s vs standard %s" % ((qc.N, qc.num_cbits), (std.nq, std.nc))
@@ -1014,7 +1021,7 @@ def spec_cross_check(ctx, res, progs):
 class C04(PropertyCheck):
     id = "C04"
     lean_modules = ["QipVerif.Props.C04"]
-    drivers = ["drv_qasm"]
+    drivers = ["drv_qasm", "drv_qasmtok"]
     theorems = [
         "QipVerif.C04.shortcut_rows",
         "QipVerif.C04.shortcut_sound",
@@ -1024,6 +1031,12 @@ class C04(PropertyCheck):
         "QipVerif.C04.import_den_partial",
         "QipVerif.C04.import_unitary_partial",
         "QipVerif.C04.import_custom_partial",
+        "QipVerif.C04.import_faithful_w1_partial",
+        "QipVerif.C04.import_den_w1_partial",
+        "QipVerif.C04.import_unitary_w1_partial",
+        "QipVerif.C04.tokenizer_faithful",
+        "QipVerif.C04.read_tokens_faithful",
+        "QipVerif.C04.tokenizer_total",
         "QipVerif.C04.cond_onebit",
         "QipVerif.C04.cond_bits",
         "QipVerif.C04.cond_never",
@@ -1170,6 +1183,7 @@ class C04(PropertyCheck):
         self._run(ctx, res, list(empty_register_programs()), ["stream=empty-registers"])
         self._run(ctx, res, list(if_value_programs()), ["stream=if-values"])
         self._run(ctx, res, list(empty_body_programs()), ["stream=empty-bodies"])
+        self._tok_progs = [p for p in uniq[::97]][:8]
         res.notes.append("exhaustive: every operand-shape tuple over {q[0], q[last], q, r[0], r[last], r} for 2-operand gates "
                          "(cx, CX, cz, cu1, user gate) on registers of sizes 1-3 x 1-3 and for 3-operand gates (ccx, user gate), "
                          "plain and behind `if`; every measure operand shape (element / out of range / register / undeclared / "
@@ -1205,11 +1219,23 @@ class C04(PropertyCheck):
             sel = [m for k, m in bad if k == kind]
             if sel:
                 self._run(ctx, res, sel, ["stream=malformed", "mutation=" + kind])
+        # the Lean model of the tokenizer (`Tok.tokenize`, theorem tokenizer_faithful) against `_tokenize` /
+        # `_tokenize_line` / the pre-processing of read_qasm: rendered programs, re-laid-out variants, malformed and
+        # random texts — token lists compared exactly
+        n0 = len(res.disagreements)
+        qasm_tok.tok_correspondence(ctx, res, progs[: (200 if ctx.thorough else 36)] + self._tok_progs +
+                                    [m for _, m in bad[: (60 if ctx.thorough else 12)]], render=render)
+        for d in res.disagreements[n0:]:
+            if isinstance(d.get("input"), dict) and "read_qasm_tokens" in d["input"]:
+                d["witness"] = {"text": d["input"]["read_qasm_tokens"]}
         # the Lean specification against the independent Python front end
         spec_cross_check(ctx, res, progs[: (1500 if ctx.thorough else 120)] + [m for _, m in bad[: (1200 if ctx.thorough else 100)]])
 
     # ------------------------------------------------------------------------------------------------
     def oracle_replay(self, ctx, w):
+        if "text" in w:      # a raw text (any layout) from the tokenizer correspondence
+            one_per_line = all(l.count(";") <= 1 and "//" not in l for l in w["text"].splitlines())
+            return property_fails_text(w["text"], lenient_if=not tree_variant()["if_rev"], refusal_ok=not one_per_line)
         # witnesses found by the sweeps carry the mode they were evaluated in (known `if` bit order tolerated)
         # — a tolerance that only exists while the checkout still has that bit order
         return property_fails(w["prog"], lenient_if=bool(w.get("_lenient_if")) and not tree_variant()["if_rev"])
